@@ -203,7 +203,7 @@ func (C01) ID() string { return "C01" }
 func (C01) Explore(x *kernel.Explorer, seed uint64) {
 	r := kernel.NewRNG(seed, 0xc01)
 	for i := 0; i < 3 && !x.Expired(); i++ {
-		plan := &kernel.Plan{Prop: "C01", Seed: kernel.Mix(seed, uint64(i)), Swarm: map[string]int64{"mysql": int64(r.Intn(3) / 2), "depeof": int64(r.Intn(2)), "chunk": int64(r.Intn(4))}}
+		plan := &kernel.Plan{Prop: "C01", Seed: kernel.Mix(seed, uint64(i)), Swarm: map[string]int64{"mysql": int64(r.Intn(3) / 2), "depeof": int64(r.Intn(2)), "wyield": int64(r.Intn(2)), "chunk": int64(r.Intn(4))}}
 		n := 2 + r.Intn(6)
 		for j := 0; j < n; j++ {
 			plan.Ops = append(plan.Ops, kernel.Op{ID: j + 1, Kind: "roundtrip", A: []int64{
@@ -305,7 +305,7 @@ func (C02) ID() string { return "C02" }
 func (C02) Explore(x *kernel.Explorer, seed uint64) {
 	r := kernel.NewRNG(seed, 0xc02)
 	for i := 0; i < 3 && !x.Expired(); i++ {
-		plan := &kernel.Plan{Prop: "C02", Seed: kernel.Mix(seed, uint64(i)), Swarm: map[string]int64{"mysql": int64(r.Intn(3) / 2), "depeof": int64(r.Intn(2)), "chunk": int64(r.Intn(4))}}
+		plan := &kernel.Plan{Prop: "C02", Seed: kernel.Mix(seed, uint64(i)), Swarm: map[string]int64{"mysql": int64(r.Intn(3) / 2), "depeof": int64(r.Intn(2)), "wyield": int64(r.Intn(2)), "chunk": int64(r.Intn(4))}}
 		n := 2 + r.Intn(6)
 		for j := 0; j < n; j++ {
 			plan.Ops = append(plan.Ops, kernel.Op{ID: j + 1, Kind: "cross", A: []int64{
@@ -400,7 +400,7 @@ func (C03) ID() string { return "C03" }
 func (C03) Explore(x *kernel.Explorer, seed uint64) {
 	r := kernel.NewRNG(seed, 0xc03)
 	for i := 0; i < 2 && !x.Expired(); i++ {
-		plan := &kernel.Plan{Prop: "C03", Seed: kernel.Mix(seed, uint64(i)), Swarm: map[string]int64{"chunk": 0, "mysql": int64(r.Intn(3) / 2), "depeof": int64(r.Intn(2))}}
+		plan := &kernel.Plan{Prop: "C03", Seed: kernel.Mix(seed, uint64(i)), Swarm: map[string]int64{"chunk": 0, "mysql": int64(r.Intn(3) / 2), "depeof": int64(r.Intn(2)), "wyield": int64(r.Intn(2))}}
 		for j := 0; j < 2; j++ {
 			plan.Ops = append(plan.Ops, kernel.Op{ID: j + 1, Kind: "mutate", A: []int64{int64(r.Intn(len(protectEntries))), int64(r.Intn(3)), int64(r.Intn(1000))}})
 		}
